@@ -9,6 +9,7 @@
   build.
 -/
 import PsutilModel.Proofs.C09Disk
+import PsutilModel.Proofs.C09Sysfs
 import PsutilModel.Proofs.C09Usage
 namespace Psutil.C09
 open Spec
@@ -177,6 +178,13 @@ theorem C09_net_every_kernel_name (h : netCfg.stripSet = some [32]) :
   rw [this]
   exact C09_net_every_kernel_name_fixed
 
+/-- **the full-strength name statement holds for the code as it is**: the translator-generated
+    configuration strips only the kernel's padding, so every interface name free of C-locale
+    whitespace is reported unchanged. A return to the bare `line[:colon].strip()` turns the fact
+    `netNameStrip` into `none` and this theorem no longer builds. -/
+theorem C09_net_names_full : C09_net_every_kernel_name_Full netCfg :=
+  C09_net_every_kernel_name (by decide)
+
 /-- with the bare `line[:colon].strip()` it is false: the interface named `a\x1f` is reported
     as `a` (and collides with a real `a`) -/
 theorem C09_net_ctrl_name_counterexample :
@@ -344,6 +352,210 @@ theorem C09_only_partitions_none (devs : List Dev) (wf : DiskWF devs) (h : whole
   rw [C09_disk devs wf false]
   simp [expectDisk, h, Expect.toOut]
 
+/-! ## the front ends' system-wide branch (translator fact `frontTotal`) -/
+
+/-- both front ends compute the total as `CTOR(*(sum(x) for x in zip(*rawdict.values())))`;
+    `C09_net`, `C09_net_total_is_sum`, `C09_disk`, `C09_total_is_sum_of_whole_disks`,
+    `C09_sysfs*` go through this shape end to end (file text → raw dict → `zip` → `sum` → tuple) -/
+theorem C09_front_total_shape :
+    Gen.C09.frontTotal = [("sum", "zip(*rawdict.values())"), ("sum", "zip(*rawdict.values())")] := by decide
+
+/-- why the shape matters: with `max` in place of `sum` the modelled front end returns, for two
+    interfaces, the larger counter instead of the sum -/
+theorem C09_front_total_max_counterexample :
+    frontEnd Gen.C09.snetioFields { netAgg with reducer := "max" } netEmptyPer netEmptyTot false
+        (.ok [([97], [1, 1, 1, 1, 1, 1, 1, 1]), ([98], [2, 2, 2, 2, 2, 2, 2, 2])])
+      = .total (netFieldNames.map fun f => (f, 2)) ∧
+    frontEnd Gen.C09.snetioFields netAgg netEmptyPer netEmptyTot false
+        (.ok [([97], [1, 1, 1, 1, 1, 1, 1, 1]), ([98], [2, 2, 2, 2, 2, 2, 2, 2])])
+      = .total (netFieldNames.map fun f => (f, 3)) := ⟨by rfl, by rfl⟩
+
+/-! ## `int()` on the tokens of a text-mode `/proc` or `/sys` file -/
+
+/-- what the kernel prints (`%u`, `%lu`, `%llu`: decimal digits only) is read back as the number
+    printed, whatever else `int()` accepts -/
+theorem C09_int_kernel_token (n : Nat) : intTok (renderDec n) = .ok n := intTok_renderDec n
+
+/-- on every digits-only token `int()` is plain decimal reading (leading zeros allowed) -/
+theorem C09_int_plain (t : Bytes) (h : PlainTok t) : pyInt? t = (parseDec? t).map Int.ofNat :=
+  pyInt_plain t h
+
+/-- the rest of `int()`'s acceptance on ASCII tokens, as modelled (and compared with CPython on
+    every token of length ≤ 4 over `+-_019x`, blank, 0x1f by the correspondence): sign, single
+    underscores between digits, surrounding blanks — but not 0x1c–0x1f, which only `str.strip()`
+    and `str.split()` treat as whitespace -/
+theorem C09_int_acceptance :
+    pyInt? [43, 53] = some 5 ∧ pyInt? [49, 95, 48] = some 10 ∧ pyInt? [45, 48] = some 0 ∧
+    pyInt? [48, 48, 49, 50] = some 12 ∧ pyInt? [32, 53, 10] = some 5 ∧ pyInt? [45, 53] = some (-5) ∧
+    pyInt? [95, 49] = none ∧ pyInt? [49, 95] = none ∧ pyInt? [49, 95, 95, 48] = none ∧
+    pyInt? [43] = none ∧ pyInt? [] = none ∧ pyInt? [53, 31] = none ∧ pyInt? [43, 45, 53] = none ∧
+    pyInt? [49, 32, 50] = none := by decide
+
+/-- outside the value domain of the model — reported as such, never as a value: a negative
+    literal, a token with a non-ASCII byte, a line whose device name contains U+00A0 -/
+theorem C09_outside_the_model :
+    intTok [45, 53] = .err .unmodelled ∧ intTok [0xD9, 0xA1] = .err .unmodelled ∧
+    diskLine diskCfg [56, 32, 48, 32, 115, 0xC2, 0xA0, 100, 32, 49] = .err .unmodelled := ⟨by rfl, by rfl, by rfl⟩
+
+/-! ## /sys/block (`read_sysfs`: the source when `/proc/diskstats` does not exist) -/
+
+/-- the translator's view of `read_sysfs` and of the choice between the sources -/
+theorem C09_disk_sources :
+    Gen.C09.diskSources = [("read_procfs", "{get_procfs_path()}/diskstats"), ("read_sysfs", "/sys/block")] ∧
+    Gen.C09.diskNoSource = "NotImplementedError" ∧
+    Gen.C09.sysfsShape = ["/sys/block", "os.walk(os.path.join('/sys/block', block))", "'stat' not in files",
+      "open_text(os.path.join(root, 'stat'))", "fields = f.read().strip().split()",
+      "name = os.path.basename(root)"] ∧
+    sysfsCfg.statName = statName ∧ sysfsCfg.take = 10 := by decide
+
+/-- `/proc/diskstats` is preferred whenever it exists (then `/sys/block` only answers
+    `is_storage_device`); with neither source the call raises `NotImplementedError` -/
+theorem C09_source_dispatch (f : Bytes) (tree : List SysDir) (perdisk : Bool) :
+    diskIoCountersW ⟨some f, some tree⟩ perdisk = diskIoCounters (tree.map (·.name)) perdisk f ∧
+    diskIoCountersW ⟨some f, none⟩ perdisk
+      = frontEnd Gen.C09.sdiskioFields diskAgg diskEmptyPer diskEmptyTot perdisk
+          (diskPlatform diskCfg (fun _ => false) perdisk f) ∧
+    diskIoCountersW ⟨none, none⟩ perdisk = .exc .notImplementedError := ⟨by rfl, by rfl, by rfl⟩
+
+/-- 11 fields (2.6 … 4.17): field i of the `stat` file lands in the documented field, sectors × 512 -/
+theorem C09_sysfs_roundtrip_11 (s : Io11) :
+    (sysfsStat sysfsCfg diskCfg.univNl (renderStat s [])).bind (storeEntry diskCfg)
+      = .ok [s.reads, s.writes, s.sectorsRead * 512, s.sectorsWritten * 512, s.msReading,
+             s.msWriting, s.readsMerged, s.writesMerged, s.msIo] :=
+  sysfsStat_render _ s []
+
+/-- 15 fields (4.18+: four discard counters appended) -/
+theorem C09_sysfs_roundtrip_15 (s : Io11) (d0 d1 d2 d3 : Nat) :
+    (sysfsStat sysfsCfg diskCfg.univNl (renderStat s [d0, d1, d2, d3])).bind (storeEntry diskCfg)
+      = .ok [s.reads, s.writes, s.sectorsRead * 512, s.sectorsWritten * 512, s.msReading,
+             s.msWriting, s.readsMerged, s.writesMerged, s.msIo] :=
+  sysfsStat_render _ s _
+
+/-- 17 fields (5.5+: two flush counters appended) -/
+theorem C09_sysfs_roundtrip_17 (s : Io11) (d0 d1 d2 d3 f0 f1 : Nat) :
+    (sysfsStat sysfsCfg diskCfg.univNl (renderStat s [d0, d1, d2, d3, f0, f1])).bind (storeEntry diskCfg)
+      = .ok [s.reads, s.writes, s.sectorsRead * 512, s.sectorsWritten * 512, s.msReading,
+             s.msWriting, s.readsMerged, s.writesMerged, s.msIo] :=
+  sysfsStat_render _ s _
+
+/-- any later extension keeps the first ten fields' meaning -/
+theorem C09_sysfs_roundtrip_ge11 (s : Io11) (ext : List Nat) :
+    (sysfsStat sysfsCfg diskCfg.univNl (renderStat s ext)).bind (storeEntry diskCfg)
+      = .ok [s.reads, s.writes, s.sectorsRead * 512, s.sectorsWritten * 512, s.msReading,
+             s.msWriting, s.readsMerged, s.writesMerged, s.msIo] :=
+  sysfsStat_render _ s ext
+
+/-- a `stat` file with 1 … 9 fields: ValueError -/
+theorem C09_sysfs_short_stat_ValueError (vs : List Nat) (h : vs.length < 10) (hne : vs ≠ []) :
+    sysfsStat sysfsCfg diskCfg.univNl (renderStatLine vs) = .err .valueError :=
+  sysfsStat_short _ vs h hne
+
+/-- **sysfs, all in one**: for every kernel-shaped `/sys/block` (disks with 11/15/17-or-more-field
+    `stat` files, partitions below them, other attribute files and directories around), with
+    `/proc/diskstats` absent, `psutil.disk_io_counters(perdisk)` is what the property promises:
+    every device (under its sysfs name) with its documented fields; system-wide the field-wise
+    sum over the whole disks only; `{}` / `None` when nothing is listed -/
+theorem C09_sysfs (disks : List SysDisk) (wf : SysWF disks) (perdisk : Bool) :
+    diskIoCountersW ⟨none, some (renderSysfs disks)⟩ perdisk = (expectSysfs perdisk disks).toOut := by
+  unfold diskIoCountersW
+  rw [sysfsPlatform_render disks wf perdisk, frontEnd_disk]
+  unfold expectSysfs
+  cases expectDisk perdisk (sysfsNamed (sysDevs disks)) <;> rfl
+
+/-- per device: every disk and partition directory with exactly its documented fields -/
+theorem C09_sysfs_roundtrip (disks : List SysDisk) (wf : SysWF disks) (hne : disks ≠ []) :
+    diskIoCountersW ⟨none, some (renderSysfs disks)⟩ true
+      = .perdev ((sysfsNamed (sysDevs disks)).map fun d => (d.name, documented9 d.stat)) := by
+  rw [C09_sysfs disks wf true]
+  cases disks with
+  | nil => exact absurd rfl hne
+  | cons d r => rfl
+
+/-- system-wide through sysfs: the sum over the directories listed in `/sys/block` only —
+    partition directories are not counted twice -/
+theorem C09_sysfs_total_is_sum_of_whole_disks (disks : List SysDisk) (wf : SysWF disks) (hne : disks ≠ []) :
+    diskIoCountersW ⟨none, some (renderSysfs disks)⟩ false
+      = .total (diskFieldNames.map fun f =>
+          (f, ((wholeDisks (sysfsNamed (sysDevs disks))).map fun d => ((documented9 d.stat).lookup f).getD 0).sum)) := by
+  rw [C09_sysfs disks wf false]
+  cases hw : wholeDisks (sysfsNamed (sysDevs disks)) with
+  | nil =>
+    cases disks with
+    | nil => exact absurd rfl hne
+    | cons d r => simp [wholeDisks, sysfsNamed, sysDevs, SysDisk.devs] at hw
+  | cons d r =>
+    simp [expectSysfs, expectDisk, hw, Expect.toOut, sumFields, List.map_map, Function.comp_def]
+
+theorem sysName_id (n : Bytes) (h : 47 ∉ n) : sysName n = n := by
+  unfold sysName
+  induction n with
+  | nil => rfl
+  | cons c r ih =>
+    have hc : c ≠ 47 := fun e => h (by simp [e])
+    simp only [List.map_cons, hc, if_false]
+    rw [ih (fun m => h (by simp [m]))]
+
+theorem sysfsNamed_id (devs : List Dev) (h : ∀ d ∈ devs, 47 ∉ d.name) : sysfsNamed devs = devs := by
+  induction devs with
+  | nil => rfl
+  | cons d r ih =>
+    rw [sysfsNamed_cons, sysName_id d.name (h d (by simp)), ih (fun x hx => h x (by simp [hx]))]
+
+/-- full strength: both sources give the same answer for the same kernel state -/
+def C09_sysfs_agrees_with_procfs_Full : Prop :=
+  ∀ (disks : List SysDisk), SysWF disks → DiskWF (sysDevs disks) → ∀ perdisk : Bool,
+    diskIoCountersW ⟨none, some (renderSysfs disks)⟩ perdisk
+      = diskIoCountersW ⟨some (renderDiskstats (sysDevs disks)), some (renderSysfs disks)⟩ perdisk
+
+/-- **both sources agree** for the same kernel state (per device and system-wide), where the
+    kernel's formats allow: no device name contains `/` (sysfs presents such a name with `!`),
+    and the names are single tokens for `/proc/diskstats` (`DiskWF`) -/
+theorem C09_sysfs_agrees_with_procfs (disks : List SysDisk) (wf : SysWF disks)
+    (wfp : DiskWF (sysDevs disks)) (hslash : ∀ d ∈ sysDevs disks, 47 ∉ d.name) (perdisk : Bool) :
+    diskIoCountersW ⟨none, some (renderSysfs disks)⟩ perdisk
+      = diskIoCountersW ⟨some (renderDiskstats (sysDevs disks)), some (renderSysfs disks)⟩ perdisk := by
+  rw [C09_sysfs disks wf perdisk, (C09_source_dispatch _ _ perdisk).1, sysBlock_render,
+    sysfsNamed_id _ hslash, C09_disk _ wfp perdisk]
+  unfold expectSysfs
+  rw [sysfsNamed_id _ hslash]
+
+/-- … and the hypothesis is needed: a disk the kernel calls `c/d` is reported as `c!d` when the
+    counters come from `/sys/block` (the kernel itself names the directory so) and as `c/d` when
+    they come from `/proc/diskstats` -/
+theorem C09_sysfs_slash_name_counterexample : ¬ C09_sysfs_agrees_with_procfs_Full := by
+  intro hfull
+  let s : Io11 := ⟨1, 2, 3, 4, 5, 6, 7, 8, 9, 10, 11⟩
+  let disks : List SysDisk := [⟨8, 0, [99, 47, 100], s, [], [], [], []⟩]
+  have wf : SysWF disks := by
+    refine ⟨?_, ⟨by decide, by decide⟩⟩
+    intro d hd
+    simp only [disks, List.mem_singleton] at hd
+    subst hd
+    exact ⟨rfl, (by intro e he; simp [walkList_nil] at he), (by intro p hp; cases hp), (by intro p hp; cases hp)⟩
+  have wfp : DiskWF (sysDevs disks) := by
+    refine ⟨?_, ?_, by decide, by decide⟩
+    · intro d hd
+      simp only [disks, sysDevs, SysDisk.devs, List.flatMap_cons, List.flatMap_nil, List.map_nil,
+        List.append_nil, List.mem_singleton] at hd
+      subst hd
+      exact ⟨by decide, by simp [NoP, isWsT, isWs], by rfl⟩
+    · intro d hd
+      simp only [disks, sysDevs, SysDisk.devs, List.flatMap_cons, List.flatMap_nil, List.map_nil,
+        List.append_nil, List.mem_singleton] at hd
+      subst hd
+      simp [WFRec]
+  have h := hfull disks wf wfp true
+  rw [C09_sysfs disks wf true, (C09_source_dispatch _ _ true).1, sysBlock_render] at h
+  have hb : sysBlock (sysfsNamed (sysDevs disks)) = sysBlock (sysDevs disks) := by decide
+  rw [hb, C09_disk _ wfp true] at h
+  simp only [expectSysfs, expectDisk, disks, sysDevs, SysDisk.devs, sysfsNamed, List.flatMap_cons,
+    List.flatMap_nil, List.map_nil, List.append_nil, List.map_cons, if_true, List.isEmpty_cons,
+    Bool.false_eq_true, if_false, Expect.toOut] at h
+  injection h with h1
+  injection h1 with h2 _
+  injection h2 with h3 _
+  exact absurd h3 (by decide)
+
 /-! ## disk_usage -/
 
 /-- the `os.statvfs` result as the model's environment -/
@@ -388,5 +600,30 @@ example : DiskWF [⟨8, 0, [115, 100, 97], false, .full ⟨1, 2, 3, 4, 5, 6, 7, 
   · intro d hd
     simp at hd
     rcases hd with rfl | rfl | rfl <;> simp [WFRec]
+
+/-- a kernel-shaped `/sys/block`: one disk with an attribute file, an attribute directory and a partition -/
+example : SysWF [⟨8, 0, [115, 100, 97], ⟨1, 2, 3, 4, 5, 6, 7, 8, 9, 10, 11⟩, [12, 13, 14, 15],
+                  [([100, 101, 118], [56, 58, 48, 10])], [.node [113] [([120], [49])] []],
+                  [⟨1, [115, 100, 97, 49], ⟨1, 2, 3, 4, 5, 6, 7, 8, 9, 10, 11⟩, [12, 13, 14, 15], [], []⟩]⟩] := by
+  refine ⟨?_, ⟨by decide, by decide⟩⟩
+  intro d hd
+  simp only [List.mem_singleton] at hd
+  subst hd
+  refine ⟨by decide, ?_, ?_, ?_⟩
+  · intro e he
+    simp [walkList_cons, walk_node, walkList_nil] at he
+    rw [he]; rfl
+  · intro p hp
+    simp only [List.mem_singleton] at hp
+    subst hp
+    rfl
+  · intro p hp
+    simp only [List.mem_singleton] at hp
+    subst hp
+    intro e he
+    simp [walkList_nil] at he
+
+/-- a device name with bytes ≥ 0x80 that is no Unicode space (`é`, U+00E9) is a good name -/
+example : WFDisk [115, 0xC3, 0xA9] := ⟨by decide, by simp [NoP, isWsT, isWs], by rfl⟩
 
 end Psutil.C09
